@@ -119,8 +119,7 @@ def judgeWith (e : Expect) (o : Obs) : Verdict :=
       .viol "flags" ("expected raised " ++ String.ofList (Nat.toDigits 16 raised))
     else .ok "pred"
   | .rel descr p, some (res, fout) =>
-    -- relational observations are made from a clear status word
-    if p res fout then .ok "rel" else .viol "relation" ("expected: " ++ descr)
+    if p res o.flagsIn fout then .ok "rel" else .viol "relation" ("expected: " ++ descr)
 
 def accepts (tinyAfter : Bool) (o : Obs) : Verdict :=
   judgeWith (expect o.op o.mode o.args tinyAfter) o
